@@ -6,6 +6,7 @@ package main
 import (
 	"bytes"
 	"fmt"
+	"io"
 	"strings"
 
 	"github.com/foxboron/go-uefi/efi/signature"
@@ -16,6 +17,7 @@ import (
 func init() { families["conv"] = runConv }
 
 var prevGUIDBytes []byte
+var guidRing [][]byte
 
 func intsToBytes(l []any) []byte {
 	b := make([]byte, len(l))
@@ -124,6 +126,28 @@ func runConv(sc M) {
 				}
 				if dl, err := signature.ReadSignatureList(bytes.NewReader(enc)); err != nil || len(dl.Signatures) != 3 || dl.Signatures[0].Owner != *og || dl.Signatures[1].Owner != *g || dl.Signatures[2].Owner != *g {
 					fail("owners of a decoded three-entry list differ from the owners that were encoded (%v)", err)
+				}
+			}
+			{
+				guidRing = append(guidRing, append([]byte{}, b...))
+				if len(guidRing) > 5 {
+					guidRing = guidRing[1:]
+				}
+				var arr []byte
+				for _, gb := range guidRing {
+					gg := util.BytesToGUID(gb)
+					arr = append(arr, guidWire(*gg)...)
+				}
+				for _, rd := range []io.Reader{bytes.NewReader(arr), &pieceReader{b: append([]byte{}, arr...), max: 7}, &pieceReader{b: append([]byte{}, arr...), max: 16, eofWithData: true}, bytes.NewBuffer(append([]byte{}, arr...))} {
+					gs, err := signature.GetSupportedSignatures(rd)
+					okk := err == nil && len(gs) == len(guidRing)
+					for k := 0; okk && k < len(gs); k++ {
+						okk = gs[k] == *util.BytesToGUID(guidRing[k])
+					}
+					if !okk {
+						fail("GetSupportedSignatures over %d GUIDs in wire layout through %T gives %d GUIDs (%v) that are not the ones encoded", len(guidRing), rd, len(gs), err)
+						break
+					}
 				}
 			}
 			prevGUIDBytes = append([]byte{}, b...)
